@@ -128,6 +128,10 @@ def arena_oracle(c, toks):
     return None
 
 
+PRE = {0: "", 1: " (after a re-entrant execute() on the same arena inside the region)", 2: " (after a trip into another arena inside the region)", 3: " (after a nested isolate inside the region)",
+       4: " (after a task_group wait inside the region)", 5: " (after execute() + task_group wait on the same arena inside the region)"}
+
+
 def run_arena(ctx):
     lib, err = ctx.build_lib("tbb")
     exe, err = ctx.build_driver("drv_arena", libs=[lib], opt="-O2")
@@ -138,17 +142,19 @@ def run_arena(ctx):
     ctx.rules.append("arena-oracle: 1-4 task_arenas (max_concurrency 1-6, reserved 0..mc), 1-5 external threads doing execute(parallel_for)/enqueue, observers, optional global_control limit 1-4; "
                      "every body samples its slot index and the set of threads inside; predicate = the six clauses of the property")
     oracle_tie(ctx, "arena-oracle", exe, [], cases, arena_oracle, bucket=lambda c: "arena limit=%d" % c[3], timeout=1200)
-    icases = [[ctx.seed * 1000 + 600 + i, P, N, M] for i, (P, N, M) in enumerate([(2, 40, 40), (4, 60, 30), (8, 100, 20), (4, 8, 200), (16, 200, 10), (3, 30, 60)] * ctx.scale(1, 6))]
-    ctx.rules.append("arena-isolate: outer parallel_for whose bodies run an inner parallel_for inside this_task_arena::isolate (2-16 threads): a thread inside an isolated region never starts an "
-                     "outer body nor an inner body of another region; nothing is lost")
+    icases = [[ctx.seed * 1000 + 600 + i, P, N, M, pre] for i, (P, N, M, pre) in enumerate(
+        [(2, 40, 40, 0), (4, 60, 30, 0), (8, 100, 20, 0), (4, 8, 200, 0), (16, 200, 10, 0), (3, 30, 60, 0),
+         (4, 300, 24, 1), (8, 400, 16, 1), (4, 200, 24, 2), (4, 200, 24, 3), (4, 200, 24, 4), (8, 300, 16, 5), (3, 200, 30, 1)] * ctx.scale(1, 6))]
+    ctx.rules.append("arena-isolate: outer parallel_for whose bodies run an inner parallel_for inside this_task_arena::isolate (2-16 threads), optionally after a re-entrant execute() on the same arena, "
+                     "a trip into another arena, a nested region or a task_group wait inside the region: a thread inside an isolated region never starts an outer body nor an inner body of another region; nothing is lost")
 
     def iso_oracle(c, toks):
         if not toks or toks[-1] == "HANG" or toks[0].startswith("CRASH"):
             return ("arena-isolate-hang", "isolate scenario %s: hang/crash" % c)
         d = {toks[i]: int(toks[i + 1]) for i in range(0, len(toks) - 1, 2)}
         if d.get("OUTERINISO") or d.get("FOREIGNINNER"):
-            return ("arena-isolation-broken", "task_arena(%d), %d outer x %d inner iterations: a thread waiting inside this_task_arena::isolate started %d outer task(s) and %d inner task(s) of another "
-                    "isolation scope" % (c[1], c[2], c[3], d.get("OUTERINISO", 0), d.get("FOREIGNINNER", 0)))
+            return ("arena-isolation-broken", "task_arena(%d), %d outer x %d inner iterations%s: a thread waiting inside this_task_arena::isolate started %d outer task(s) and %d inner task(s) of another "
+                    "isolation scope" % (c[1], c[2], c[3], PRE.get(c[4] if len(c) > 4 else 0, ""), d.get("OUTERINISO", 0), d.get("FOREIGNINNER", 0)))
         if d.get("LOST"):
             return ("arena-isolate-lost", "task_arena(%d): %d inner iterations never ran" % (c[1], d["LOST"]))
         return None
